@@ -17,12 +17,42 @@ package auth
 //@ spec rec nearestOK(privs map[string]Privilege, r string, need Privilege) bool =
 //@     ite(has(privs, r), granted(privs[r], need), ite(r == "/", false, nearestOK(privs, path.Dir(r), need)))
 
+// The authorisation rule of the property, as a function of the user, the resource and the
+// privilege asked for. It mentions the resource only through path.Clean / path.IsAbs.
+//@ spec authzOK(u User, res string, priv Privilege) bool = priv == NoPrivileges || u.admin ||
+//@       (path.IsAbs(res) && len(u.privileges) > 0 && nearestOK(u.privileges, path.Clean(res), priv))
+
 //@ func (User).AuthorizeAction
 //@   props C20 C05
 //@   requires 0 <= action.Privilege && action.Privilege < 32
 //@   requires forall k string :: has(u.privileges, k) ==> 0 <= u.privileges[k] && u.privileges[k] < 32
 //@   modifies nothing
-//@   ensures (result == nil) <==> (action.Privilege == NoPrivileges || u.admin ||
-//@       (path.IsAbs(action.Resource) && len(u.privileges) > 0 && nearestOK(u.privileges, path.Clean(action.Resource), action.Privilege)))
+//@   ensures (result == nil) <==> authzOK(u, action.Resource, action.Privilege)
 //@   loop 1
 //@     invariant nearestOK(u.privileges, resource, action.Privilege) == nearestOK(u.privileges, path.Clean(action.Resource), action.Privilege)
+
+// The single path element a database name is mapped to.
+//@ spec dbName(d string) string = ite(strreplaceall(d, "/", "_") == d, strreplaceall(d, "/", "_") + "_clean", strreplaceall(d, "/", "_") + "_dirty")
+
+//@ func DatabaseResource
+//@   props C20
+//@   opt strings=seq
+//@   pure
+//@   ensures database == "" ==> result == "/database"
+//@   ensures database != "" ==> result == path.Join("/database", dbName(database))
+
+// "distinct database names never map to the same resource" -- the statement of the property,
+// over the specification the function is proved against (path.Join of a clean single element is
+// injective in that element).
+//@ lemma dbNameInjective props C20 seq: forall d1 string, d2 string :: d1 != d2 ==> dbName(d1) != dbName(d2)
+// (Not claimed: "dbName(d) contains no '/'" -- str.replace_all reasoning; all three solvers answer unknown.)
+
+//@ func APIResource
+//@   props C20
+//@   pure
+//@   ensures result == path.Join("/api", p)
+
+//@ func (User).Name
+//@   props C20
+//@   pure
+//@   ensures result == u.name
